@@ -2,7 +2,7 @@
    verifier, and kind "discbuild": Disclosure::new(..).salt_len(..).algorithm(..).build(). *)
 From Coq Require Import List String Ascii Bool Arith NArith.
 Import ListNotations.
-Require Import SDJ.Json SDJ.Wire SDJ.Model2 SDJ.Out SDJ.Restore2 SDJ.Split SDJ.SplitM SDJ.Spec SDJ.RefVerify SDJ.Verify SDJ.CaseLib SDJ.Base64.
+Require Import SDJ.Json SDJ.Wire SDJ.Model2 SDJ.Out SDJ.Restore2 SDJ.Split SDJ.SplitM SDJ.Spec SDJ.RefVerify SDJ.Verify SDJ.CaseLib SDJ.Base64 SDJ.JsonText.
 Local Open Scope string_scope.
 
 Definition dec_opt_of_table (tbl : list json) (s : string) : option json :=
@@ -127,7 +127,11 @@ Definition base64_model_agrees (o : json) : bool :=
     let v := obs_val o in
     match jget "text" v, jget "disclosure" v, jget "digest" v, jget "digest_hex" v with
     | JStr text, JStr d, JStr g, JStr hx =>
-        String.eqb (Base64.encode text) d
+        (* the JSON text model (JsonText.v): the text is what the model prints for the decoded array, and the model
+           parses it back to that array *)
+        String.eqb (JsonText.print (jget "indep_decoded" v)) text
+        && (match JsonText.parse text with Some j => json_eqb j (jget "indep_decoded" v) | None => false end)
+        && String.eqb (Base64.encode text) d
         && (match Base64.decode d with Some t => String.eqb t text | None => false end)
         && (match unhex hx with Some raw => String.eqb (Base64.encode raw) g | None => false end)
     | _, _, _, _ => false end
@@ -137,4 +141,4 @@ Definition case_discbuild (input obs : json) : verdict :=
   match discbuild_oracle input (jget "build" obs) with
   | Some w => VPropFail ("Disclosure::build: " ++ w)
   | None => if base64_model_agrees (jget "build" obs) then VOk true
-            else VMismatch "Disclosure::build: the base64url model (Base64.v) does not reproduce the disclosure string or the digest" end.
+            else VMismatch "Disclosure::build: the text models (JsonText.v, Base64.v) do not reproduce the disclosure text, the disclosure string or the digest" end.
